@@ -9,7 +9,7 @@ PATCH=$(readlink -f "$1"); shift
 D=/tmp/mut.$$
 mkdir -p $D
 cleanup() { git -C /repo worktree remove --force $D/repo >/dev/null 2>&1; rm -rf $D; git -C /repo worktree prune; }
-trap cleanup EXIT INT TERM
+trap cleanup EXIT INT TERM PIPE HUP
 git -C /repo worktree add --detach $D/repo HEAD >/dev/null 2>&1 || { echo "worktree failed"; exit 2; }
 (cd $D/repo && git apply "$PATCH") || { echo "patch does not apply"; exit 2; }
 SRC=$(dirname "$(dirname "$(readlink -f "$0")")")
